@@ -105,6 +105,11 @@ func runC11Seq(drv int, ops []*SOp) (string, []*SOp, []string) {
 }
 
 func runC11(ctx *Ctx) {
+	for drv := 0; drv < 2; drv++ {
+		if ctx.Want(990010 + drv) {
+			c11Boundary(ctx, 990010+drv, drv)
+		}
+	}
 	if ctx.Want(990000) {
 		if ctx.Thorough() {
 			done := make(chan struct{})
